@@ -968,6 +968,18 @@ let is_local = function
 | KLocal -> true
 | _ -> false
 
+(** val is_steal : opk -> bool **)
+
+let is_steal = function
+| KSteal -> true
+| _ -> false
+
+(** val is_own : opk -> bool **)
+
+let is_own = function
+| KOwn -> true
+| _ -> false
+
 (** val call_ok : nat -> opk -> bool **)
 
 let call_ok a0 = function
@@ -1169,17 +1181,17 @@ let step b reuse s = function
    | XM ->
      let s1 = release s me.lb (sub me.pend me.ppi) in
      let s2 = s_rl s1 (updr s1.rl me.ppi me.pend true) in
-     (match me.kd with
-      | KSteal ->
-        Some
-          (setA s2 a0
-            (a_pc
-              (a_dq
-                (a_rv me (match rev me.res with
-                          | [] -> []
-                          | v :: _ -> v :: []))
-                (app me.dq (removelast me.res))) Ext))
-      | _ -> Some (setA s2 a0 (a_pc (a_rv me me.res) Idle)))
+     if is_steal me.kd
+     then Some
+            (setA s2 a0
+              (a_pc
+                (a_dq
+                  (a_rv me
+                    (match rev me.res with
+                     | [] -> []
+                     | v :: _ -> v :: [])) (app me.dq (removelast me.res)))
+                Ext))
+     else Some (setA s2 a0 (a_pc (a_rv me me.res) Idle))
    | LK -> Some (setA (s_tix s (S me.lpi)) a0 (a_pc me LKr))
    | LKr ->
      let s1 = release s me.lb (S O) in
@@ -1200,12 +1212,12 @@ let step b reuse s = function
   let me = s.a a0 in
   (match me.pc with
    | Ext ->
-     (match me.kd with
-      | KOwn ->
-        (match me.dq with
-         | [] -> Some (setA s a0 (a_pc me Idle))
-         | v :: r -> Some (setA s a0 (a_pc (a_dq (a_rv me (v :: [])) r) Idle)))
-      | _ -> Some (setA s a0 (a_pc me Idle)))
+     if is_own me.kd
+     then (match me.dq with
+           | [] -> Some (setA s a0 (a_pc me Idle))
+           | v :: r ->
+             Some (setA s a0 (a_pc (a_dq (a_rv me (v :: [])) r) Idle)))
+     else Some (setA s a0 (a_pc me Idle))
    | _ -> None)
 
 (** val ast0 : ast **)
